@@ -93,7 +93,12 @@ Record settings := MkSt {
   fast_root : bool;           (* settings.fast_computations.covar_root_decomposition.on() *)
   chol_st : C16.Model.settings F;   (* cholesky_jitter / cholesky_max_tries / trace_mode (read by psd_safe_cholesky) *)
   default32 : bool;           (* torch.get_default_dtype() == float32 *)
-  eps_inv : F                 (* the literal 1e-7 of `evals.clamp_min(1e-7)` in root_inv_decomposition *)
+  eps_inv : F;                (* the literal 1e-7 of `evals.clamp_min(1e-7)` in root_inv_decomposition *)
+  kron_noargs : bool          (* SOURCE FLAG, not a library setting (regenerated from the AST of
+                                 kronecker_product_linear_operator.py on every run, gen/SrcFlags.v): below max_cholesky_size
+                                 KroneckerProductLinearOperator.root_inv_decomposition calls
+                                 `super().root_inv_decomposition()` WITHOUT its arguments (true: the pinned tree — the
+                                 method argument is dropped) or forwards initial_vectors / test_vectors / method (false) *)
 }.
 
 (* LinearOperator._choose_root_method *)
@@ -486,7 +491,7 @@ Fixpoint alg (e : expr) : algs :=
              let K := kron_of Rs in ret (s_dat K, s_cols K) in
       let rootinv_super := fun c m => gen_root_inv n A c cholpub symeig (diag MNone) svd (a_rootinvL b) (root c MNone) m in
       let rootinv := fun c (m : method) =>
-        if (Z.of_nat n <=? mcs st)%Z then rootinv_super c MNone                     (* super().root_inv_decomposition() *)
+        if (Z.of_nat n <=? mcs st)%Z then rootinv_super c (if kron_noargs st then MNone else m)   (* super().root_inv_decomposition(...) *)
         else Rs <- mseq (map (fun a => '(R, k, _) <- a_rootinv a no_cache MNone ;; ret (R, a_n a, k)) subs) ;;
              let K := kron_of Rs in ret (s_dat K, s_cols K, None) in
       MkAlgs n A None chol false symeig svd diag rsize (a_rootL b) (a_rootinvL b) root rootinv
@@ -509,7 +514,7 @@ Fixpoint alg (e : expr) : algs :=
              let K := kron_of Rs in ret (s_dat K, s_cols K) in
       let rootinv_super := fun c m => gen_root_inv n A c cholpub (a_symeig da) (diag MNone) (a_svd da) (a_rootinvL da) (root c MNone) m in
       let rootinv := fun c (m : method) =>
-        if (Z.of_nat n <=? mcs st)%Z then rootinv_super c MNone
+        if (Z.of_nat n <=? mcs st)%Z then rootinv_super c (if kron_noargs st then MNone else m)
         else Rs <- mseq (map (fun a => '(R, k, _) <- a_rootinv a no_cache MNone ;; ret (R, a_n a, k)) subs) ;;
              let K := kron_of Rs in ret (s_dat K, s_cols K, None) in
       MkAlgs n A (a_diagvec da) (a_chol da) true (a_symeig da) (a_svd da) diag rsize (a_rootL da) (a_rootinvL da) root rootinv
